@@ -23,7 +23,13 @@ fn quote_cell(s: &str, force: bool) -> String {
 
 fn gen_rows(rng: &mut Rng) -> Vec<SrcRow> {
     let surf = ["東京", "a", "a,b", "q\"t", " ", "x y", "", "京都", "a", "東", "\"", "1,2,\"3\"", "é", "😀", "ab", "#", "#tag", ";x", "𠮷野", "😀a", "\u{10FFFF}"];
+    // (a long cell of three-byte characters, and a quoted cell of about 2 kB with doubled quotes in its first part)
+    let long_jp: String = std::iter::repeat("読み仮名").take(12).collect();
+    let long_q: String = format!("q\"{}", std::iter::repeat("ab\"cd,").take(330).collect::<String>());
     let cells = ["名詞", "f", "", "*", "a b", "x,y", "i\"j", " ", "終", "l1\nl2"];
+    // the long cells appear in 1 lexicon of 12 only (and not in the lexicons with hundreds of homographs): they make the
+    // Coq literals of a case large
+    let long_case = rng.chance(1, 12);
     // 1 case in 20: one surface with 255..600 homographs (posting lists longer than one byte can count)
     let many = rng.chance(1, 20);
     let n = if many { *rng.pick(&[255usize, 256, 257, 300, 512, 600]) } else { 1 + rng.below(6) as usize };
@@ -33,7 +39,7 @@ fn gen_rows(rng: &mut Rng) -> Vec<SrcRow> {
             let nf = rng.below(5) as usize;
             let feature_raw = (0..nf)
                 .map(|_| {
-                    let c = *rng.pick(&cells[..]);
+                    let c = if long_case && !many && rng.chance(1, 4) { if rng.chance(1, 2) { long_jp.as_str() } else { long_q.as_str() } } else { *rng.pick(&cells[..]) };
                     quote_cell(c, rng.chance(1, 6))
                 })
                 .collect::<Vec<_>>()
@@ -206,7 +212,7 @@ pub fn run(seed: u64, n: usize, outdir: &str, _corpus: Option<&str>) -> std::io:
             samples.push(format!("{{\"case\":{}}}", json_str(&human)));
         }
     }
-    let shards = sh.write(outdir, 300)?;
+    let shards = sh.write(outdir, 150)?;
     let mut meta = std::fs::File::create(format!("{}/meta.json", outdir))?;
     let d: Vec<String> = dist.iter().map(|(k, v)| format!("{}:{}", json_str(k), v)).collect();
     writeln!(meta, "{{\"cases\":{},\"duplicates\":{},\"shards\":{},\"distribution\":{{{}}},\"samples\":[{}]}}", sh.cases.len(), sh.duplicates, shards, d.join(","), samples.join(","))?;
